@@ -143,7 +143,7 @@ def compile_one(src, cfgs=(), crate_type="lib", externs=None, edition="2021", us
     # evaluated, so a derive whose tables fail const evaluation is rejected here like in a real build
     cmd = ["rustc", "--edition", edition, "--emit=obj", "-C", "link-dead-code", "-C", "opt-level=0", "-C", "debuginfo=0",
            "-C", "codegen-units=1", "--crate-type", crate_type, "--crate-name", "case",
-           "--error-format=json", "--cap-lints", "allow", "--out-dir", tdir, "--extern", "enum_tools=" + dylib]
+           "--error-format=json", "-A", "warnings", "--out-dir", tdir, "--extern", "enum_tools=" + dylib]
     for k, v in (externs or {}).items():
         cmd += ["--extern", "%s=%s" % (k, v)]
     for c in cfgs:
@@ -219,7 +219,7 @@ def run_program(src, externs=None, timeout=120, cfgs=()):
         f.write(src)
     exe = os.path.join(tdir, "prog")
     cmd = ["rustc", "--edition", "2021", "--crate-type", "bin", "--crate-name", "prog", "-C", "debug-assertions=on",
-           "-C", "overflow-checks=on", "--cap-lints", "allow", "-o", exe, "--extern", "enum_tools=" + dylib]
+           "-C", "overflow-checks=on", "-A", "warnings", "-o", exe, "--extern", "enum_tools=" + dylib]
     for k, v in (externs or {}).items():
         cmd += ["--extern", "%s=%s" % (k, v)]
     for c in cfgs:
